@@ -9,7 +9,7 @@ From SP Require Import Base.Sat Base.Bits Core.CnfModel Core.Card Core.CnfProofs
 From SP Require Import Design.Flat Design.Layout Design.Sem.
 From SP Require Import Encode.Compile Encode.CodeSem Encode.Generic Encode.Blocks Encode.Runs
      Encode.GridLemmas Encode.CrossChunks Encode.LayoutF1 Encode.F1Kinds Encode.F1Cross Encode.F1Deriv
-     Encode.CompileProofs Encode.CompileCorollaries.
+     Encode.F1InARow Encode.F1Sequential Encode.CompileProofs Encode.CompileCorollaries.
 From SP Require Sample.Decode Sample.DecodeProofs Design.LayoutWf Sample.DecodeWf.
 Import ListNotations.
 Close Scope Z_scope.
@@ -28,14 +28,14 @@ Lemma one_crossing_total i c fresh :
   crossing_f1 fb i c = true -> exists ct, apply_one_crossing fb i c fresh = COk ct.
 Proof.
   intros Hcf. pose proof (crossing_f1_factors fb i c Hcf) as Hc.
-  unfold crossing_f1 in Hcf. rewrite !andb_true_iff in Hcf. destruct Hcf as [[[[_ Hlen] Hsize] _] _].
-  apply Nat.eqb_eq in Hlen. apply Nat.ltb_lt in Hsize.
-  assert (Etc : trial_combinations_of fb c = crossing_combos fb c) by (apply filter_length_eq; exact Hlen).
-  unfold apply_one_crossing. rewrite Etc, (f1_preamble fb HF1 i). cbn [Nat.add]. rewrite Nat.sub_0_r.
-  set (combos := crossing_combos fb c).
+  unfold crossing_f1 in Hcf. rewrite !andb_true_iff in Hcf. destruct Hcf as [[[_ Hsize] _] _].
+  apply Nat.ltb_lt in Hsize.
+  unfold apply_one_crossing. rewrite (f1_preamble fb HF1 i). cbn [Nat.add]. rewrite Nat.sub_0_r.
+  set (combos := trial_combinations_of fb c).
   set (rows := map (fun t => map (fun di => map (gv fb (t - 1)) di) combos) (seq 1 (T fb))).
   assert (Eenc : cmapM (fun t => cmapM (fun di => encode_combination fb di t) combos) (seq 1 (T fb)) = COk rows).
-  { unfold rows. apply cmapM_ok. intros t _. apply cmapM_ok. intros di Hdi. now apply (encode_combo fb HF1 HT c). }
+  { unfold rows. apply cmapM_ok. intros t _. apply cmapM_ok. intros di Hdi. apply (encode_combo fb HF1 HT c); [exact Hc|].
+    unfold combos, trial_combinations_of in Hdi. apply filter_In in Hdi. apply Hdi. }
   rewrite Eenc. cbn [cbind].
   assert (Hrows : rows <> []).
   { intros H. apply (f_equal (@length _)) in H. unfold rows in H. rewrite map_length, seq_length in H. cbn in H. lia. }
@@ -84,10 +84,12 @@ Proof.
     cbn [constraint_f1] in Hc. rewrite !andb_true_iff in Hc. destruct Hc as [[Hf Hl] Hg].
     apply Nat.ltb_lt in Hf, Hl. destruct (geom_ok_some fb wb Hg) as [rs Ers].
     unfold apply_atmost, sublistss. rewrite (f1_var_lists fb HF1 f l wb rs Hf Hl Ers). cbn [cbind]. eexists. reflexivity.
+  - (* AtLeastKInARow *) exact (atleast_total fb HF1 _ _ _ _ fresh Hc).
   - (* ExactlyK *)
     cbn [constraint_f1] in Hc. rewrite !andb_true_iff in Hc. destruct Hc as [[[Hf Hl] Hg] _].
     apply Nat.ltb_lt in Hf, Hl. destruct (geom_ok_some fb wb Hg) as [rs Ers].
     unfold apply_exactlyk. rewrite (f1_var_lists fb HF1 f l wb rs Hf Hl Ers). cbn [cbind]. eexists. reflexivity.
+  - (* ExactlyKInARow *) exact (exactrow_total fb HF1 _ _ _ _ fresh Hc).
   - (* Exclude *)
     cbn [constraint_f1] in Hc. rewrite !andb_true_iff in Hc. destruct Hc as [Hf Hl]. apply Nat.ltb_lt in Hf, Hl.
     unfold apply_exclude. rewrite (f1_var_lists_none fb HF1 f l Hf Hl). cbn [cbind]. eexists. reflexivity.
@@ -96,10 +98,14 @@ Proof.
     apply Nat.ltb_lt in Hf, Hl. apply Nat.eqb_eq in Hs. destruct (geom_ok_some fb wb Hg) as [rs Ers].
     unfold apply_pin. rewrite (f1_trial_numbers fb f index wb rs Hs Ers).
     destruct (flat_map _ rs) as [|p ps]; [eexists; reflexivity|].
-    assert (Evars : forall pl, cmapM (fun t => get_variable fb (t + 1) f l) pl = COk (map (fun t => gvar fb t f l) pl)).
+    assert (Evars : forall pl, cmapM (fun t => if negb (applies_at fb f (t + 1)) then COk [[1%Z]; [(-1)%Z]]
+                                               else v <~ get_variable fb (t + 1) f l ;; COk [[zn v]]) pl
+                               = COk (map (fun t => [[zn (gvar fb t f l)]]) pl)).
     { induction pl as [|a pl IH]; [reflexivity|]. cbn [cmapM map].
+      rewrite (f1_applies fb HF1 f (a + 1)). cbn [negb].
       rewrite Nat.add_1_r, (f1_get_variable fb HF1 f l a Hf Hl). cbn [cbind]. rewrite IH. reflexivity. }
     rewrite Evars. cbn [cbind]. eexists. reflexivity.
+  - (* Sequential *) exact (sequential_total fb HF1 HT _ fresh Hc).
 Qed.
 
 (** * The fold *)
